@@ -58,10 +58,13 @@ def icv(integ_id, key, data):
     return hmac.new(bytes(key), bytes(data), getattr(hashlib, name)).digest()[:n]
 
 
-def pad(plain):
-    """RFC 7296 3.14: padding up to the block size, followed by the Pad Length octet; minimum padding, zeros"""
-    n = (-(len(plain) + 1)) % BLOCK
-    return plain + bytes(n) + bytes([n])
+def pad(plain, extra_blocks=0, fill=0):
+    """RFC 7296 3.14: padding up to the block size, followed by the Pad Length octet.  Default: minimum padding, zeros.
+    A sender MAY add any amount of padding (up to 255 octets) with any content; the recipient MUST accept it."""
+    n = (-(len(plain) + 1)) % BLOCK + BLOCK * extra_blocks
+    if n > 255:
+        raise ValueError('Pad Length %d' % n)
+    return plain + bytes([fill]) * n + bytes([n])
 
 
 # ----------------------------------------------------------------------------- encoder
@@ -153,7 +156,8 @@ def encode(m, keys=None):
     if sk is not None:
         enc_key, integ_id, int_key = keys
         first_inner, inner = encode_chain(list(sk['payloads']))
-        body = bytes(sk['iv']) + aes_cbc(enc_key, sk['iv'], pad(inner)) + bytes(icv_len(integ_id))
+        body = (bytes(sk['iv']) + aes_cbc(enc_key, sk['iv'], pad(inner, sk.get('pad_extra', 0), sk.get('pad_fill', 0)))
+                + bytes(icv_len(integ_id)))
         payloads.append(('SK', first_inner, body))
     first, chain = encode_chain(payloads)
     data = encode_header(m, first, HDR + len(chain)) + chain
